@@ -15,8 +15,8 @@ func init() {
 		Level: "other",
 		Run:   checkC14,
 		Explanation: "C14 as a whole is behaviour of nats-server and nats.go at run time (Create/Update/Get/expiry semantics, revision order, exactly-once watch delivery, agreement with a reference model) and is NOT decided by static analysis of this repository. " +
-			"Decided are the two clauses that are in this repository's text and are necessary conditions of the stated contract: (R1) 'one stable channel and without accumulating goroutines': every implementation of Watcher.Updates creates its channel and forwarding goroutine under a once-guard, or Updates is never called inside a loop; " +
-			"(R2) thin forwarding: every adapter method calls the same-named method of the wrapped NATS (or mock) object with its key, value and revision parameters in position and returns that call's results - a dropped revision would turn Update into an unconditional write.",
+			"Decided are the clauses that are in this repository's text and are necessary conditions of the stated contract: (R1) 'one stable channel and without accumulating goroutines': every implementation of Watcher.Updates creates its channel and forwarding goroutine under a once-guard, or Updates is never called inside a loop; " +
+			"(R2) thin forwarding: every adapter method calls the same-named method of the wrapped NATS (or mock) object with its key, value and revision parameters in position and returns that call's results on every return (a nil error only where the wrapped call's error is nil; no second operation on the wrapped object, also not in helpers) - a dropped revision would turn Update into an unconditional write, a swallowed conflict would break compare-and-set; (R3) the forwarding goroutine forwards every entry with a blocking send; (R4) and every such send can be abandoned when the watcher is stopped (select with a channel closed by Stop), so that a watcher stopped with a backlog leaves no goroutine behind.",
 		NotDecided: []string{"Create succeeds exactly when the key has no live value", "Update succeeds exactly for the latest revision; revisions strictly increase", "Get returns the latest live value", "watch delivers every change exactly once, in order, deletions as empty values", "coincidence with the reference store model"},
 		Assumptions: []string{"the store semantics of nats.go v1.47.0 / nats-server v2.12.2 are trusted, not analysed"},
 		Rules: map[string]string{
